@@ -102,6 +102,9 @@ func (h *Header) Link(key cbc.Key) *Link {
 // and properties are contained within the base header. Only a subset of
 // the most important fields are compared.
 func (h *Header) Contains(h2 *Header) bool {
+	if h == nil || h2 == nil {
+		return false
+	}
 	if h.UUID.String() != h2.UUID.String() {
 		return false
 	}
